@@ -109,6 +109,7 @@ func rulePublishedSnapshotsImmutable(r *Report, rule string) {
 	n := 0
 	for _, fi := range p.funcsInPkg(scorchPkg) {
 		info := fi.Pkg.TypesInfo
+		var g *FCFG
 		freshOf := func(typeName string) map[types.Object]bool {
 			m := map[types.Object]bool{}
 			for _, v := range freshVarsOfType(fi, typeName) {
@@ -176,8 +177,18 @@ func rulePublishedSnapshotsImmutable(r *Report, rule string) {
 					sel := ast.Unparen(target).(*ast.SelectorExpr)
 					base := baseIdent(sel.X)
 					ok := base != nil && fresh[info.ObjectOf(base)] && exprStr(sel.X) == base.Name
-					r.Ob(rule, fi.Name+"/"+strings.Fields(what)[0]+"-"+owner+"."+fld, at.Pos(), ok,
-						what+" through "+exprStr(target)+": the object is not a snapshot freshly built in this function, so a concurrent reader may observe the change")
+					detail := what + " through " + exprStr(target) + ": the object is not a snapshot freshly built in this function, so a concurrent reader may observe the change"
+					if ok && !strings.HasPrefix(what, "in-place") {
+						// the fresh object's field must not share its storage with an existing snapshot
+						if g == nil {
+							g = buildCFG(info, fi.Decl.Body)
+						}
+						if sh := sharedStorageAt(info, g, fi.Decl.Body, info.ObjectOf(base), owner, fld, at); len(sh) > 0 {
+							ok = false
+							detail = what + " through " + exprStr(target) + ": the snapshot object is new, but its ." + fld + " may still be the storage it was initialised from (" + exprStr(sh[0]) + "), which published snapshots share; readers of the old snapshot observe the change"
+						}
+					}
+					r.Ob(rule, fi.Name+"/"+strings.Fields(what)[0]+"-"+owner+"."+fld, at.Pos(), ok, detail)
 					return true
 				})
 			}
